@@ -1,7 +1,7 @@
 (* C03 — C-integer division and modulo follow Python semantics.
    Only statements; proofs live in Proof/P_CMath.v. *)
 From Coq Require Import ZArith Bool.
-From CyVerif Require Import Lib.CInt Model.M_CMath Proof.P_CMath.
+From CyVerif Require Import Lib.CInt Model.M_CMath Proof.P_CMath Model.M_DivNode Proof.P_DivNode.
 Open Scope Z_scope.
 
 (* a // b through __Pyx_div_<T>: Python floor division, for every width and signedness,
@@ -72,6 +72,103 @@ Theorem C03_cdivision_is_trunc : forall w s a b,
   cdiv_c w s a b = Z.quot a b /\ cmod_c w s a b = Z.rem a b.
 Proof. exact cdivision_is_trunc. Qed.
 Print Assumptions C03_cdivision_is_trunc.
+
+(* ---- the decision table of DivNode / ModNode code generation (M_DivNode) ----------------
+   divisor kinds: DRun (not a compile-time constant), DNum c (numeric constant_result: literal,
+   DEF, folded expression, negated literal), DOpaque (constant_result is not a number: a type
+   cast of a constant).  variant: zc = the clause `or operand2.constant_result == 0` is present
+   (true in the code as it is), oq = non-numeric constants are treated as unknown (false in the
+   code as it is, true in the proposed repair).
+
+   With cdivision off the emitted statement (zero test if zerodivision_check, MIN test if
+   min_division_check, then helper call or C operator) is Python's // and % for every width,
+   signedness, divisor kind and operand pair: FULL statement, holds for the repaired variant
+   on all kinds and for the code as it is on every kind but DOpaque. *)
+Theorem C03_stmt_python : forall v w s d a b,
+  zc v = true -> (d = DOpaque -> oq v = true) ->
+  2 <= w -> in_range w s a -> in_range w s b -> divisor_value d b ->
+  div_stmt v py_cfg w s d a b = py_floordiv w s a b /\
+  mod_stmt v py_cfg w s d a b = py_mod a b.
+Proof. intros; split; [apply div_stmt_python | apply mod_stmt_python]; assumption. Qed.
+Print Assumptions C03_stmt_python.
+
+(* ... hence never a C division by zero, and ZeroDivisionError exactly when the divisor is 0 *)
+Theorem C03_stmt_safe : forall v w s d a b,
+  zc v = true -> (d = DOpaque -> oq v = true) ->
+  2 <= w -> in_range w s a -> in_range w s b -> divisor_value d b ->
+  (div_stmt v py_cfg w s d a b <> UB /\ (div_stmt v py_cfg w s d a b = ZeroDivisionError <-> b = 0)) /\
+  (mod_stmt v py_cfg w s d a b <> UB /\ (mod_stmt v py_cfg w s d a b = ZeroDivisionError <-> b = 0)).
+Proof. intros; split; [apply div_stmt_safe | apply mod_stmt_safe]; assumption. Qed.
+Print Assumptions C03_stmt_safe.
+
+(* the code as it is: everything but type-cast constant divisors *)
+Theorem C03_stmt_as_is_partial : forall w s d a b,
+  d <> DOpaque ->
+  2 <= w -> in_range w s a -> in_range w s b -> divisor_value d b ->
+  div_stmt as_is py_cfg w s d a b = py_floordiv w s a b /\
+  mod_stmt as_is py_cfg w s d a b = py_mod a b.
+Proof. intros w s d a b Hd; intros; apply C03_stmt_python; try assumption; [reflexivity | intro; contradiction]. Qed.
+Print Assumptions C03_stmt_as_is_partial.
+
+(* the zero test is left out only for a numeric constant divisor different from 0 *)
+Theorem C03_zero_test_omitted_only_nonzero_const : forall v d,
+  zc v = true -> oq v = true -> zerodivision_check v py_cfg d = false ->
+  exists c, d = DNum c /\ c <> 0.
+Proof. exact zero_test_omitted_only_nonzero_const. Qed.
+Print Assumptions C03_zero_test_omitted_only_nonzero_const.
+
+(* without the clause `or operand2.constant_result == 0` every constant zero divisor reaches the
+   C division: all widths, both signednesses, every dividend, // and % *)
+Theorem C03_zero_const_clause_needed : forall o w s a,
+  div_stmt {| zc := false; oq := o |} py_cfg w s (DNum 0) a 0 = UB /\
+  mod_stmt {| zc := false; oq := o |} py_cfg w s (DNum 0) a 0 = UB.
+Proof. exact zero_const_clause_needed. Qed.
+Print Assumptions C03_zero_const_clause_needed.
+
+(* finding typecast_constant_divisor_unguarded (code as it is): `a // <T>0`, `a % <T>0` and
+   `MIN // <T>-1` execute the C division *)
+Theorem C03_typecast_const_divisor_refuted : forall w s a,
+  div_stmt as_is py_cfg w s DOpaque a 0 = UB /\ mod_stmt as_is py_cfg w s DOpaque a 0 = UB /\
+  div_stmt as_is py_cfg w true DOpaque (min_int w true) (-1) = UB.
+Proof.
+  intros w s a. destruct (opaque_const_zero_refuted w s a) as [H1 H2].
+  repeat split; try assumption. apply opaque_const_min_refuted.
+Qed.
+Print Assumptions C03_typecast_const_divisor_refuted.
+
+(* cdivision (directive, decorator, cython.cdiv / cython.cmod): no test, the C operators, C
+   truncation semantics wherever C defines the result *)
+Theorem C03_stmt_cdivision : forall v c is_mod w s d a b,
+  (cdir c || cforced c) = true ->
+  (exists k, decisions v c is_mod s d = (false, false, true, k)) /\
+  (2 <= w -> in_range w s a -> in_range w s b -> div_ub w s a b = false ->
+   div_stmt v c w s d a b = Value (Z.quot a b) /\ mod_stmt v c w s d a b = Value (Z.rem a b)).
+Proof. intros; split; [now apply decisions_cdivision | now apply stmt_cdivision]. Qed.
+Print Assumptions C03_stmt_cdivision.
+
+(* divmod(a, b) on two C integers (__Pyx_divmod_int_T): floor quotient and remainder with the
+   sign of the divisor whenever C defines the division; ZeroDivisionError for b = 0 *)
+Theorem C03_divmod_python : forall g w s a b,
+  2 <= w -> in_range w s a -> in_range w s b ->
+  (b = 0 -> divmod_q g w s a b = ZeroDivisionError /\ divmod_r g w s a b = ZeroDivisionError) /\
+  (b <> 0 -> div_ub w s a b = false ->
+   divmod_q g w s a b = Value (a / b) /\ divmod_r g w s a b = Value (a mod b)).
+Proof.
+  intros g w s a b Hw Ha Hb. split.
+  - intros ->. apply divmod_zero.
+  - intros; now apply divmod_python.
+Qed.
+Print Assumptions C03_divmod_python.
+
+(* finding divmod_min_minus1_unguarded: the divmod helper as it is has no MIN / -1 test; with the
+   test (proposed repair) the quotient is Python's // as an outcome and nothing is undefined *)
+Theorem C03_divmod_min_refuted_and_repaired :
+  (exists w s a b, 2 <= w /\ in_range w s a /\ in_range w s b /\ divmod_q false w s a b = UB) /\
+  (forall w s a b, 2 <= w -> in_range w s a -> in_range w s b ->
+     divmod_q true w s a b = py_floordiv w s a b /\
+     (divmod_q true w s a b = OverflowError \/ divmod_r true w s a b = py_mod a b)).
+Proof. split; [exact divmod_min_refuted | exact divmod_guarded_python]. Qed.
+Print Assumptions C03_divmod_min_refuted_and_repaired.
 
 (* non-vacuity: the hypotheses are met by ordinary operands *)
 Example C03_nonvacuous :
